@@ -142,7 +142,17 @@ def st_opt_map(ex, callee, args, st):
         elif re.search(r"\{(std::boxed::|alloc::boxed::)?Box::<.*>::new\}>$", callee):
             res.append(("return", Adt("Option", "Some", [payload]), None, st2))
         else:
-            raise Unsupported(f"Option::map with {callee}")
+            fm = re.search(r"\{([\w:<>', ]+)\}>$", callee)      # a named fn item: `map::<U, fn(..) -> .. {path::name}>`
+            if not fm:
+                raise Unsupported(f"Option::map with {callee}")
+
+            class _F:
+                name = "Option::map"
+            for kind, val, info, st3 in ex._call(_F, fm.group(1), [payload], 1, st2):
+                if kind == "return":
+                    res.append(("return", Adt("Option", "Some", [val]), None, st3))
+                else:
+                    res.append((kind, val, info, st3))
     return res
 
 
@@ -413,6 +423,19 @@ def st_vec_index(ex, callee, args, st):
     if isinstance(v, Sym) and k is not None and getattr(ex, "model_sequences", False):
         return [("return", seq_elem(ex, v, k), None, st2) if 0 <= k < n else ("panic", None, "index out of bounds", st2)
                 for n, st2 in seq_lengths(ex, v, st)]
+    iv = ex.deref(args[1], st)
+    if isinstance(v, Sym) and isinstance(iv, Scalar) and iv.sort == "int" and getattr(ex, "model_sequences", False):
+        # symbolic index into a sequence of known length: in bounds -> some element, out of bounds -> panic
+        res = []
+        for n, st2 in seq_lengths(ex, v, st):
+            inb = f"(and (<= 0 {iv.term}) (< {iv.term} {n}))"
+            s_ok, s_bad = st2.fork(), st2.fork()
+            s_ok.pc.append(inb)
+            s_bad.pc.append(symex.neg(inb))
+            if n > 0:
+                res.append(("return", seq_elem_at(ex, v, iv.term), None, s_ok))
+            res.append(("panic", None, f"index out of bounds: the len is {n} but the index is {iv.term}", s_bad))
+        return res
     return _fallback(ex, callee, args, st, f"index into {v!r}")
 
 
@@ -512,6 +535,42 @@ def st_set_is_empty(ex, callee, args, st):
     if not (isinstance(cur, Adt) and cur.ty == "Set"):
         return _fallback(ex, callee, args, st, f"is_empty on {cur!r}")
     return _ret(S("bool", "true" if not cur.fields else "false"), st)
+
+
+def _tag_term(ex, v):
+    """tag of a value of a payload-free enum (symbolic or constructed) as an SMT term, or None"""
+    if isinstance(v, Sym) and v.tdef is not None and v.tdef.kind == "enum" and all(not flds for _, flds in v.tdef.variants):
+        return v.tag().term
+    if isinstance(v, Adt) and v.variant is not None and not v.fields:
+        try:
+            return str(ex.variant_index(v.ty, v.variant))
+        except Unsupported:
+            return None
+    return None
+
+
+def st_option_enum_eq(ex, callee, args, st):
+    """`Option<E> == Option<E>` for a payload-free enum E (std's generic impl is not in the dump): structural equality on the tags"""
+    a, b = ex.deref(args[0], st), ex.deref(args[1], st)
+
+    def parts(v):
+        if isinstance(v, Adt) and v.variant == "None":
+            return "0", None
+        if isinstance(v, Adt) and v.variant == "Some":
+            f = v.fields[0]
+            return "1", _tag_term(ex, ex.deref(f[1] if isinstance(f, tuple) else f, st))
+        if isinstance(v, Sym) and v.tdef is not None and v.tdef.name == "Option":
+            return v.tag().term, _tag_term(ex, v.child("Some", 0))
+        return None, None
+    ta, pa = parts(a)
+    tb, pb = parts(b)
+    if ta is None or tb is None or (ta != "0" and pa is None) or (tb != "0" and pb is None):
+        return _fallback(ex, callee, args, st, f"== on {a!r}, {b!r}")
+    inner = f"(= {pa} {pb})" if (pa is not None and pb is not None) else "true"
+    term = symex.simplify_bool(f"(and (= {ta} {tb}) (or (= {ta} 0) {inner}))")
+    if callee.endswith("::ne"):
+        term = symex.simplify_bool(symex.neg(term))
+    return _ret(S("bool", term), st)
 
 
 def st_opt_is_some_and(ex, callee, args, st):
@@ -769,6 +828,7 @@ STATE_INTRINSICS = {
     r"HashMap::<&str, .*>::new$": st_map_new,
     r"HashMap::<&str, .*>::insert$": st_map_insert,
     r"HashMap::<&str, .*>::get::<.*>$": st_map_get,
+    r"^<(std::option::)?Option<[\w:]+> as (std::cmp::)?PartialEq>::(eq|ne)$": st_option_enum_eq,
     r"Option::<.*>::and_then::<.*>$": st_opt_and_then,
     r"Option::<.*>::filter::<.*>$": st_opt_filter,
     r"Option::<.*>::(is_some_and|is_none_or)::<.*>$": st_opt_is_some_and,
